@@ -46,7 +46,7 @@ CLAIMED = {
                 "property's bound in the thorough tier) and comparing inside Coq.",
         "design_ref": "DESIGN.md section 8, C20",
         "note": COMMON_NOTE + "Sleeping is observed through inter-call gaps (lower bound), not modelled in real time.",
-        "technique": "Rocq proof by induction over the retry loop + differential run of RetryMiddleware vs model",
+        "technique": "Rocq proof by induction over the retry loop + (1) Go->Gallina translation of middleware/retry.go on every run with a bridge lemma (generated definition = model) re-checked by coqc, (2) differential run of RetryMiddleware vs model",
         "coq_targets": ["Properties/C20.vo", "Corr/RetryCorr.vo", "Proofs/RetryCorrProofs.vo"],
     },
     "C19": {
@@ -63,7 +63,7 @@ CLAIMED = {
                 "sequences and registry histories, compared inside Coq.",
         "design_ref": "DESIGN.md section 8, C19",
         "note": COMMON_NOTE + "reflect.Type identity is modelled as an abstract type id (exercised with two same-named types of different import paths); the logging middleware is observed through the position of its log line (wrappers nest, so the exit position determines the entry position); panic messages are classified by substring, their type names are not compared.",
-        "technique": "Rocq proof by induction over option lists, registry histories and middleware lists + differential run of the runtime/generated client vs model",
+        "technique": "Rocq proof by induction over option lists, registry histories and middleware lists + (1) Go->Gallina translation of the option functions, BuildMiddleware, NewWith, Register, NewRest on every run with bridge lemmas re-checked by coqc, (2) differential run of the runtime/generated client vs model",
         "coq_targets": ["Properties/C19.vo", "Corr/RestRuntimeCorr.vo"],
     },
     "C16": {
